@@ -140,6 +140,16 @@ func vpCheckStore(s *KVStore, ref []vpRef) {
 	cnt := 0
 	s.RangeHKey(func(hkey uint64) bool { cnt++; return true })
 	vpAssert(cnt == n, "rangehkey-count")
+	// so does the cursor iteration (Scan over the table index, one page)
+	scanned, foreign := vpFullScan(s, len(ref), 10, "", 16)
+	for k := range ref {
+		if ref[k].present {
+			vpAssert(scanned[k] == 1, "scan-present-once")
+		} else {
+			vpAssert(scanned[k] == 0, "scan-absent")
+		}
+	}
+	vpAssert(foreign == 0, "scan-foreign")
 }
 
 // vpCompact runs compaction to completion and checks it terminates within the budget.
